@@ -65,6 +65,8 @@ type c31Scn struct {
 	// owner batch bound / concurrency
 	batch, ownerConc int
 	note             string
+	// deep: explored with one more delay in the thorough tier
+	deep bool
 }
 
 func c31Route(uid string, node, session uint64) onlinedelivery.Route {
@@ -499,12 +501,12 @@ func c31SameRoutes(a, b []onlinedelivery.Route) bool {
 	return strings.Join(key(a), "|") == strings.Join(key(b), "|")
 }
 
-func c31Scenarios(thorough bool) []*c31Scn {
+func c31Scenarios() []*c31Scn {
 	a11, a12 := c31Route("u1", c31NodeA, 11), c31Route("u2", c31NodeA, 12)
 	b21, b22 := c31Route("u1", c31NodeB, 21), c31Route("u2", c31NodeB, 22)
 	stale := c31Route("u3", c31NodeA, 99) // presence still lists a session the owner no longer has
 	scns := []*c31Scn{
-		{name: "local-two-sessions-stop", lifecycle: "stop", targets: [][]string{{"u1", "u2", "u4"}, {"u4"}},
+		{name: "local-two-sessions-stop", deep: true, lifecycle: "stop", targets: [][]string{{"u1", "u2", "u4"}, {"u4"}},
 			routes: map[string][]onlinedelivery.Route{"u1": {a11}, "u2": {a12}}, batch: 8, ownerConc: 1,
 			note: "u1,u2 online on the local owner, u4 offline and listed under two authority targets (one de-duplicated offline report); Stop at any point"},
 		{name: "local-retry-narrowing", lifecycle: "", targets: [][]string{{"u1", "u2", "u3"}},
@@ -519,13 +521,13 @@ func c31Scenarios(thorough bool) []*c31Scn {
 			routes: map[string][]onlinedelivery.Route{"u1": {a11}, "u2": {b22}}, remoteErrFirst: true, batch: 8, ownerConc: 1,
 			note: "first remote push of every plan fails as a whole; Quiesce (clients ack every accepted write), then Stop"},
 	}
-	if thorough {
+	{
 		scns = append(scns,
 			&c31Scn{name: "retry-exhausted-and-terminal", lifecycle: "stop", targets: [][]string{{"u1"}, {"u2", "u3"}},
 				routes: map[string][]onlinedelivery.Route{"u1": {a11}, "u2": {b22}, "u3": {stale}},
 				script: map[uint64][]c31Disp{11: {c31Retry, c31Retry, c31Retry}, 22: {c31Drop}, 99: {c31Drop}}, batch: 1, ownerConc: 2,
 				note: "session 11 retryable until exhaustion, remote 22 terminal, stale local route; owner batch bound 1"},
-			&c31Scn{name: "all-offline-quiesce", lifecycle: "quiesce", targets: [][]string{{"u4", "u5"}, {"u4"}},
+			&c31Scn{name: "all-offline-quiesce", deep: true, lifecycle: "quiesce", targets: [][]string{{"u4", "u5"}, {"u4"}},
 				routes: map[string][]onlinedelivery.Route{}, batch: 8, ownerConc: 1,
 				note: "nobody online, u4 listed under two targets: one de-duplicated offline batch per plan"},
 		)
@@ -547,8 +549,12 @@ func TestVerifC31(t *testing.T) {
 	var execs int64
 	outcomes := 0
 	overlap := false
-	for _, scn := range c31Scenarios(r.Thorough()) {
+	for _, scn := range c31Scenarios() {
 		scn := scn
+		bound := bound
+		if scn.deep && r.Thorough() {
+			bound++
+		}
 		check := c31Check(scn)
 		st := vsched.Explore(r, vsched.Scenario{
 			Name: scn.name, Property: "C31", Bound: bound, Delay: true, QuietAtomics: true, Horizon: 20000,
